@@ -3,6 +3,8 @@ from harness import checklevel
 from harness.runner import Job
 
 OUTSIDE = [
+    'EC aggregate (small difference) and ECDSA signature checks in relational '
+    'form (their soundness / totality are C02, C10, C18)',
     'real-kernel cross-talk inside fpylll / gmpy2',
     'batches larger than 2 (3 for the aggregate plumbing)',
     'CheckOpensslDenylist / CheckKeypairDenylist (string formatting / hash of '
@@ -15,6 +17,207 @@ ASSUMPTIONS = [
 ]
 
 
+def ec_relational(rec, seed, check, cids):
+  """EC single checks on [k1, k2], [k2], [k2, k1] (same check object, fresh
+  messages with the same symbolic coordinates): the entry, weak flag and
+  attached evidence of a key are the same in every batch and position."""
+  import z3  # pylint: disable=g-import-not-at-top
+  from harness import common, pysym, stubs  # pylint: disable=g-import-not-at-top
+  from harness.common import ivar, inputs_of, T  # pylint: disable=g-import-not-at-top
+  from harness.props import c18  # pylint: disable=g-import-not-at-top
+  m = c18._mods()
+  pb, ec_util, util, ecs = m['pb'], m['ec_util'], m['util'], m['ecs']
+  rec.functions('paranoid_crypto.lib.ec_single_checks:%s.Check' % check,
+                'paranoid_crypto.lib.util:SetTestResult')
+  rec.bounds('two keys on curve identifiers %r, coordinates symbolic in '
+             '[0, 2^530); batches [k1, k2], [k2], [k2, k1] through one check '
+             'object; ExtendedBatchDL = arbitrary but the same for the same '
+             'point' % (cids,))
+  cexs = []
+  reach = 0
+
+  def dl_stub(self, points):
+    stubs.USED.add('EcCurve.ExtendedBatchDL: None / arbitrary integer per '
+                   'point, a function of (curve, point)')
+    e = pysym.eng()
+    out = []
+    for pt in points:
+      key = ('dl', self.name, tuple(
+          T(c).get_id() if pysym.is_sym(c) else c for c in pt)
+             if isinstance(pt, tuple) else pt)
+      if key not in e.memo:
+        found = e.fresh('dl_found', 'bool')
+        e.memo[key] = (found, pysym.SInt(e.fresh('dl')), pt)
+      found, val, _ = e.memo[key]
+      out.append(val if e.decide(found) else None)
+    return out
+
+  def run(e):
+    chk = getattr(ecs, check)()
+    xs = [ivar(e, 'x%d' % i, lo=0, hi=2**530) for i in range(2)]
+    ys = [ivar(e, 'y%d' % i, lo=0, hi=2**530) for i in range(2)]
+
+    def key(i):
+      k = pb.ECKey()
+      k.ec_info.curve_type = cids[i]
+      k.ec_info.x, k.ec_info.y = xs[i], ys[i]
+      return k
+
+    A, B, C = [key(0), key(1)], [key(1)], [key(1), key(0)]
+    att = []
+    e.notes.update(A=A, B=B, C=C, att=att)
+    with stubs.patched(util, AttachInfo=lambda ti, nm, v: att.append(
+        (ti, nm, v))):
+      return [chk.Check(x) for x in (A, B, C)]
+
+  with stubs.patched(util, Bytes2Int=lambda b_: b_), \
+      stubs.patched(ec_util, gmpy=stubs.GMPY), \
+      stubs.patched(ecs, logging=common.QUIET, format=lambda v, s_: v,
+                    int=stubs.sym_int), \
+      c18.checklevel_attr(ec_util.EcCurve, 'ExtendedBatchDL', dl_stub):
+    for p in pysym.explore(run, max_paths=3000, feas_timeout_ms=500):
+      e = p.eng
+      rec.path(p.kind)
+      if p.kind != 'return':
+        continue  # totality is C18
+      A, B, C, att = (e.notes[k_] for k_ in ('A', 'B', 'C', 'att'))
+
+      def view(k):
+        ents = [r for r in k.test_info.test_results if r.test_name == check]
+        infos = [(nm, v) for ti, nm, v in att if ti is k.test_info]
+        return ents, infos, k.test_info.weak
+
+      goals = []
+      for group in ([A[1], B[0], C[0]], [A[0], C[1]]):
+        v0 = view(group[0])
+        for other in group[1:]:
+          v1 = view(other)
+          goals.append(('same_entry_count', z3.BoolVal(
+              len(v0[0]) == len(v1[0]) <= 1 and len(v0[1]) == len(v1[1]))))
+          if len(v0[0]) == len(v1[0]) == 1:
+            goals.append(('same_verdict', z3.And(
+                checklevel.b(v0[0][0].result) == checklevel.b(v1[0][0].result),
+                T(v0[0][0].severity) == T(v1[0][0].severity),
+                checklevel.b(v0[2]) == checklevel.b(v1[2]))))
+          for (na, va), (nb, vb) in zip(v0[1], v1[1]):
+            same = na == nb
+            if pysym.is_sym(va) or pysym.is_sym(vb):
+              goals.append(('same_evidence', z3.And(z3.BoolVal(same),
+                                                    T(va) == T(vb))))
+            else:
+              goals.append(('same_evidence', z3.BoolVal(same and va == vb)))
+      rets = p.value
+      goals.append(('return_is_or', z3.And(
+          checklevel.b(rets[0]) == checklevel.b(rets[2]),
+          z3.Implies(checklevel.b(rets[1]), checklevel.b(rets[0])))))
+      for name, g in goals:
+        g = z3.simplify(g)
+        if z3.is_true(g):
+          rec.obligation('proved')
+          continue
+        r, mdl, _ = e.prove(g, timeout_ms=30000, use_defs=False)
+        if r == 'proved':
+          rec.obligation('proved')
+        elif r == 'unknown':
+          rec.obligation('unknown', '%s %s' % (check, name))
+        else:
+          cexs.append((name, inputs_of(e, mdl)))
+      if not reach:
+        reach = 1
+        rec.sample(dict(check=check, curves=list(cids)))
+  rec.reach(1, reach)
+  if cexs:
+    probs = ec_oracle(check)
+    rec.replayed()
+    names = sorted({c[0] for c in cexs})
+    rec.violation('ec_single_checks.%s.Check' % check, names[0],
+                  '%s; concrete differential oracle: %s' %
+                  (', '.join(names), probs[:2] if probs else
+                   'no concrete witness found'), cexs[0][1],
+                  dict(module='harness.props.c17', function='replay_ec_oracle',
+                       args=dict(check=check)), bool(probs))
+
+
+def ec_oracle(check):
+  """Real check, real protobufs: every key of a pool alone and in ordered
+  pairs (one check object), entries and evidence compared."""
+  import itertools  # pylint: disable=g-import-not-at-top
+  from harness import common, pb2shim  # pylint: disable=g-import-not-at-top
+  pb = common.lib(fakes=False)
+  pb2shim.use_fakes(False)
+  from paranoid_crypto.lib import ec_single_checks as ecs  # pylint: disable=g-import-not-at-top
+  from paranoid_crypto.lib import ec_util, util  # pylint: disable=g-import-not-at-top
+  pool = []
+  for cid in (2, 5):
+    c = ec_util.CURVE_FACTORY[cid]
+    for d in (5, 2**40 + 1, int(c.n) - 3, 0x1234567890abcdef1234567890abcdef):
+      pt = c.Multiply(c.g, d)
+      pool.append((cid, int(pt[0]), int(pt[1])))
+    pool.append((cid, int(c.g[0]), int(c.g[1]) + 1))   # off curve
+  pool.append((0, 1, 2))
+  pool.append((7, 1, 2))
+  c1 = ec_util.CURVE_FACTORY[1] if 1 in ec_util.CURVE_FACTORY else None
+  if c1 is not None:
+    pool.append((1, int(c1.g[0]), int(c1.g[1])))
+
+  def mk(t):
+    k = pb.ECKey()
+    k.ec_info.curve_type = t[0]
+    k.ec_info.x = util.Int2Bytes(t[1])
+    k.ec_info.y = util.Int2Bytes(t[2])
+    return k
+
+  def summary(k):
+    return ([(r.test_name, r.result, r.severity)
+             for r in k.test_info.test_results],
+            sorted((i.info_name, i.value) for i in k.test_info.attached_info)
+            if hasattr(k.test_info, 'attached_info') else None,
+            k.test_info.weak)
+
+  chk = getattr(ecs, check)()
+  problems = []
+  alone = {}
+  for t in pool:
+    k = mk(t)
+    try:
+      chk.Check([k])
+    except Exception as ex:  # pylint: disable=broad-except
+      problems.append('%s raised on %r: %r' % (check, t[:1], ex))
+      continue
+    alone[t] = summary(k)
+  for a, b_ in itertools.permutations(pool, 2):
+    if a not in alone or b_ not in alone:
+      continue
+    ka, kb = mk(a), mk(b_)
+    try:
+      chk.Check([ka, kb])
+    except Exception as ex:  # pylint: disable=broad-except
+      problems.append('%s raised on a pair: %r' % (check, ex))
+      continue
+    for t, k in ((a, ka), (b_, kb)):
+      if summary(k) != alone[t]:
+        problems.append('%s: key on curve %d in a batch with curve %d -> %r, '
+                        'alone -> %r' % (check, t[0], (b_ if t is a else a)[0],
+                                         summary(k), alone[t]))
+    if len(problems) > 4:
+      break
+  return problems
+
+
+def replay_ec_oracle(check):
+  probs = ec_oracle(check)
+  for p_ in probs:
+    print(p_)
+  return bool(probs)
+
+
 def jobs(tier, seed):
   out = checklevel.relational_jobs('C17', ('c17',), tier)
+  pairs = [(2, 2), (2, 5), (0, 2), (7, 2)] + (
+      [(5, 2), (1, 2), (2, 0), (77, 2), (19, 19)] if tier == 'thorough'
+      else [])
+  for check in ('CheckValidECKey', 'CheckWeakCurve', 'CheckWeakECPrivateKey'):
+    for cp in pairs:
+      out.append(Job('ec_%s_c%d_%d' % (check, cp[0], cp[1]), ec_relational,
+                     dict(check=check, cids=list(cp)), timeout=1800, cost=15))
   return out
